@@ -80,6 +80,35 @@ int sqfs_file_open(sqfs_file_t **out, const char *filename, sqfs_u32 flags)
 	return 0;
 }
 
+/* since fix a8a582b sqfs_writer_init opens the native handle and the file
+ * object separately (so that a half-opened output can be removed again) */
+int sqfs_native_file_open(sqfs_file_handle_t *out, const char *filename,
+			  sqfs_u32 flags)
+{
+	(void)filename; (void)flags;
+	g_open_calls += 1;
+	if (nd_fail("open_fails")) {
+		*out = -1;
+		return SQFS_ERROR_IO;
+	}
+	*out = 5;
+	return 0;
+}
+
+int sqfs_file_open_handle(sqfs_file_t **out, const char *filename,
+			  sqfs_file_handle_t fd, sqfs_u32 flags)
+{
+	(void)filename; (void)flags; (void)fd;
+	*out = NULL;
+	if (nd_fail("open_handle_fails"))
+		return SQFS_ERROR_ALLOC;
+	*out = mk(&g_outfile);
+	return 0;
+}
+
+void sqfs_native_file_close(sqfs_file_handle_t fd) { (void)fd; }
+int unlink(const char *path) { (void)path; return 0; }
+
 void sqfs_perror(const char *file, const char *action, int error_code)
 {
 	(void)file; (void)action; (void)error_code;
